@@ -125,6 +125,10 @@ def synth_hourly(tz="America/Chicago", start="2018-01-01", days=365, seed=0, ghi
         occ = ((hod >= 8) & (hod <= 18) & (dow < 5)).astype(float) + rng.normal(0, 0.05, len(idx))
         df["observed"] = df["observed"] + 0.5 * occ * scale
         df[occupancy_name] = occ
+        # a second supplemental time series (two of a kind: their order in the model is part of what must be reproducible)
+        wind = np.abs(rng.normal(8, 3, len(idx)))
+        df["observed"] = df["observed"] + 0.01 * wind * scale
+        df["Wind Speed"] = wind
     if ghi:
         df["ghi"] = np.maximum(0, 800 * np.sin(np.pi * (hod - 6) / 12)) * (0.6 + 0.4 * np.sin(2 * np.pi * (doy - 80) / 365))
         df["observed"] = df["observed"] - df["ghi"] / 1000 * scale
